@@ -268,3 +268,147 @@ Proof.
     cbn [andb negb passert pbind app].
     rewrite <- !app_assoc. cbn [app nlen length]. rewrite N.add_0_r. replace (nlen sch + 3 - 2) with a by lia. reflexivity.
 Qed.
+
+(* ================= the join theorem ================= *)
+(* every reference without a scheme *)
+Definition rel_ref (input : list N) : bool :=
+  match parse_scheme CUrlParser (input_new_trim_c0 input) with Some _ => false | None => true end.
+
+Section JoinPath.
+Variable dbg : bool.
+Variable hp hpo : list N -> result host.
+Variable hd : host -> list N.
+Hypothesis HRT : HostRT hp hpo hd.
+Hypothesis HAb : host_above hp hpo hd.
+
+Notation auth_ok := (auth_ok hp hpo hd).
+Notation auth_url := (auth_url hd).
+Notation auth_front := (auth_front hd).
+Notation Canon := (Canon hp hpo hd).
+
+Lemma auth_front_Z sch ui h pt : auth_front sch ui h pt = (sch ++ [58]) ++ (47 :: 47 :: ui_text ui ++ hd h ++ port_text pt).
+Proof. unfold C02_Auth.auth_front. rewrite <- !app_assoc. reflexivity. Qed.
+
+(* with_query_and_fragment behind a new canonical path of a record with authority *)
+Lemma auth_wqf st ovr sch ui h pt p q f p' rest u : auth_ok st sch ui h pt p q f ->
+  pth_ok p' -> usv_list rest -> (ovr = None \/ st = STNotSpecial) ->
+  with_query_and_fragment ovr CUrlParser st (nlen sch) (nlen sch + 3 + ui_ulen ui) (nlen sch + 3 + nlen (ui_text ui))
+     (nlen sch + 3 + nlen (ui_text ui) + nlen (hd h)) (hi_of_host h) pt (nlen (auth_front sch ui h pt))
+     (auth_front sch ui h pt ++ pth_text p') rest = POk u ->
+  exists q' f', auth_ok st sch ui h pt p' q' f' /\ u = auth_url sch ui h pt p' q' f'.
+Proof.
+  intros K Hp' Hr Hov. rewrite wqf_auth; [|rewrite front_len; lia | apply front_css].
+  destruct (parse_query_and_fragment ovr CUrlParser st (nlen sch) (auth_front sch ui h pt ++ pth_text p') rest)
+    as [[[s4 qs] fs]| |] eqn:E4; cbn [pbind]; try discriminate.
+  apply pqf_out in E4; [|exact Hr|].
+  2:{ rewrite <- app_assoc. rewrite front_sch. destruct Hov as [-> | ->]; [reflexivity|].
+      apply query_enc_nonspecial. exact (ak_st _ _ _ _ _ _ _ _ _ _ _ K). }
+  destruct E4 as (-> & -> & -> & Bq & Bf & Cq & Cf). intros H. inversion H; subst u. clear H.
+  exists (pqf_q st rest), (pqf_f rest). split; [|reflexivity].
+  destruct K as [Ksch Kst Kui Kh Kemp Kpt Kp Kq Kf Kb Kbq Kbf]. constructor; assumption.
+Qed.
+
+Theorem join_rel_Canon ovr b input u : Canon b -> usv_list input -> rel_ref input = true ->
+  (ovr = None \/ st_is_special (scheme_type_of (b_scheme b)) = false) ->
+  parse_url dbg hp hpo hd ovr (Some b) input = POk u -> Canon u.
+Proof.
+  intros Cb Hu Hr Hov Hp.
+  destruct (tail_ref input) eqn:Et; [exact (join_tail_Canon dbg hp hpo hd HRT ovr b input u Cb Hu Et Hov Hp)|].
+  pose proof (trim_usv input Hu) as Hl. unfold rel_ref in Hr. unfold tail_ref in Et. unfold parse_url in Hp.
+  set (l := input_new_trim_c0 input) in *.
+  destruct (parse_scheme CUrlParser l) as [[s0 r0]|]; [discriminate|].
+  destruct (inp_next l) as [[c r]|] eqn:En; [|discriminate].
+  apply orb_false_iff in Et. destruct Et as [E35 E63].
+  unfold inp_starts_with_char in Hp. rewrite En, E35 in Hp.
+  destruct Cb as [sch P q f K | sch segs last q f K | sch ui h pt p q f K | sch ui h pt p q f K Kp].
+  - rewrite (opaque_url_cbb sch P q f K) in Hp. discriminate.
+  - (* base without authority *)
+    rewrite (proj1 (proj2 (noauth_url_wf sch segs last q f K))) in Hp.
+    destruct K as [Ksch Kns Ksegs Klast Kq Kf Kb1 Kbq Kbf].
+    set (T := path_text segs last) in *. set (a := nlen (sch ++ [58])) in *.
+    assert (noauth_url sch T q f
+            = qf_url (((sch ++ [58]) ++ marker_of T) ++ T) (nlen sch) a a a HI_None None (nlen ((sch ++ [58]) ++ marker_of T)) q f) as EB.
+    { rewrite noauth_url_qf. unfold noauth_pre. rewrite (nlen_app (sch ++ [58])). rewrite (app_assoc (sch ++ [58])). reflexivity. }
+    rewrite EB in Hp. rewrite frame_scheme in Hp. rewrite Kns in Hp. cbn [st_is_file] in Hp.
+    apply (rel_ns_out dbg hp hpo hd HRT HAb ovr sch (marker_of T) a a a HI_None None Ksch Kns l c r (Some (segs, last)) q f u
+             Hl En E63 E35 (conj Ksegs Klast)) in Hp.
+    destruct Hp as [(ui & h & pt' & p' & q' & f' & K' & ->) | (segs' & last' & l' & Hl' & Hs' & Hla' & Hw)];
+      [exact (Canon_auth hp hpo hd sch ui h pt' p' q' f' K')|].
+    assert ((' (s2, qs, fs) <~ parse_query_and_fragment ovr CUrlParser STNotSpecial (nlen sch)
+                                 (noauth_pre sch (path_text segs' last')) (cbb_rest l') ;;
+             POk (mkUrl s2 (nlen sch) a a a HI_None None (a + nlen (marker_of (path_text segs' last'))) qs fs)) = POk u) as Hw2.
+    { rewrite <- Hw. symmetry. unfold marker_of at 1 2. destruct (starts_with s_ss T).
+      - exact (wqf_noauth_marker_eq ovr sch (path_text segs' last') (cbb_rest l') eq_refl).
+      - rewrite !app_nil_r. exact (wqf_noauth_eq hp hpo ovr sch (path_text segs' last') (cbb_rest l') eq_refl). }
+    clear Hw. set (T' := path_text segs' last') in *.
+    destruct (parse_query_and_fragment ovr CUrlParser STNotSpecial (nlen sch) (noauth_pre sch T') (cbb_rest l'))
+      as [[[s2 qs] fs]| |] eqn:Eq; cbn [pbind] in Hw2; try discriminate Hw2.
+    inversion Hw2; subst u. clear Hw2.
+    apply pqf_out in Eq; [|apply usv_cbb_rest; exact Hl'|].
+    2:{ unfold noauth_pre. rewrite <- !app_assoc. rewrite nfirstn_app_len. apply query_enc_nonspecial. exact Kns. }
+    destruct Eq as (-> & -> & -> & Bq & Bf & Cq & Cf).
+    apply (Canon_noauth hp hpo hd sch segs' last' (pqf_q STNotSpecial (cbb_rest l')) (pqf_f (cbb_rest l'))).
+    constructor; assumption.
+  - (* base with authority, non-special scheme *)
+    rewrite (proj2 (auth_url_wf hp hpo hd HRT _ _ _ _ _ _ _ _ K)) in Hp.
+    rewrite auth_url_qf in Hp. unfold auth_pre in Hp. rewrite auth_front_Z in Hp.
+    rewrite frame_scheme in Hp. rewrite (ak_st _ _ _ _ _ _ _ _ _ _ _ K) in Hp. cbn [st_is_file] in Hp.
+    apply (rel_ns_out dbg hp hpo hd HRT HAb ovr sch _ _ _ _ _ _ (ak_sch _ _ _ _ _ _ _ _ _ _ _ K) (ak_st _ _ _ _ _ _ _ _ _ _ _ K)
+             l c r p q f u Hl En E63 E35 (ak_p _ _ _ _ _ _ _ _ _ _ _ K)) in Hp.
+    destruct Hp as [(ui' & h' & pt' & p' & q' & f' & K' & ->) | (segs' & last' & l' & Hl' & Hs' & Hla' & Hw)];
+      [exact (Canon_auth hp hpo hd sch ui' h' pt' p' q' f' K')|].
+    rewrite <- auth_front_Z in Hw.
+    destruct (auth_wqf STNotSpecial ovr sch ui h pt p q f (Some (segs', last')) (cbb_rest l') u K (conj Hs' Hla')
+                (usv_cbb_rest l' Hl') (or_intror eq_refl) Hw) as (q' & f' & K' & ->).
+    exact (Canon_auth hp hpo hd sch ui h pt _ q' f' K').
+  - (* special base *)
+    rewrite (proj2 (auth_url_wf hp hpo hd HRT _ _ _ _ _ _ _ _ K)) in Hp.
+    rewrite auth_url_qf in Hp, Hov. unfold auth_pre in Hp, Hov. rewrite auth_front_Z in Hp, Hov.
+    rewrite frame_scheme in Hp, Hov. rewrite (ak_st _ _ _ _ _ _ _ _ _ _ _ K) in Hp, Hov. cbn [st_is_file st_is_special] in Hp, Hov.
+    destruct Hov as [-> | Hov]; [|discriminate Hov].
+    destruct p as [[segs last]|]; [|contradiction]. destruct Kp as [Ksegs Klast].
+    apply (rel_sp_out dbg hp hpo hd HRT HAb sch _ _ _ _ _ _ (ak_sch _ _ _ _ _ _ _ _ _ _ _ K) (ak_st _ _ _ _ _ _ _ _ _ _ _ K)
+             l c r segs last q f u Hl En E63 E35 Ksegs Klast) in Hp.
+    destruct Hp as [(ui' & h' & pt' & p' & q' & f' & K' & Kp' & ->) | (segs' & last' & l' & Hl' & Hs' & Hla' & Hw)];
+      [exact (Canon_special hp hpo hd sch ui' h' pt' p' q' f' K' Kp')|].
+    rewrite <- auth_front_Z in Hw.
+    destruct (auth_wqf STSpecialNotFile None sch ui h pt _ q f (Some (segs', last')) (cbb_rest l') u K
+                (conj (good_segs_sp_good segs' Hs') (good_seg_sp_good last' Hla'))
+                (usv_cbb_rest l' Hl') (or_introl eq_refl) Hw) as (q' & f' & K' & ->).
+    exact (Canon_special hp hpo hd sch ui h pt _ q' f' K' (conj Hs' Hla')).
+Qed.
+
+Theorem join_rel_fixpoint ovr b input u : Canon b -> usv_list input -> rel_ref input = true ->
+  (ovr = None \/ st_is_special (scheme_type_of (b_scheme b)) = false) ->
+  parse_url dbg hp hpo hd ovr (Some b) input = POk u ->
+  Fixpoint_of_reparse dbg hp hpo hd u /\ wf_b u = true /\ ascii (ser u).
+Proof.
+  intros Cb Hu Ht Hov Hp. apply (Canon_fixpoint dbg hp hpo hd HRT).
+  exact (join_rel_Canon ovr b input u Cb Hu Ht Hov Hp).
+Qed.
+End JoinPath.
+
+(* non-vacuity: the three path arms on a special base, on a base with authority (empty path), on a base without
+   authority with and without the "/." marker (the marker goes when the new path does not start with "//") *)
+From Coq Require Import String.
+Definition ex_join (b r : String.string) (expect : String.string) : bool :=
+  match parse_url true ex_hp ex_hp ex_hd None None (B b) with
+  | POk bu => match parse_url true ex_hp ex_hp ex_hd None (Some bu) (B r) with
+              | POk u => list_eqb (ser u) (B expect) && rel_ref (B r) && negb (tail_ref (B r))
+              | _ => false end
+  | _ => false
+  end.
+
+Open Scope string_scope.
+Example join_path_examples :
+  ex_join "http://h/p/q?q#f" "../x y" "http://h/x%20y" = true
+  /\ ex_join "http://h/p/q?q#f" "\y/./z?k" "http://h/y/z?k" = true
+  /\ ex_join "http://h/p/q?q#f" "/\h2/z" "http://h2/z" = true
+  /\ ex_join "http://h/p/q?q#f" "a/../b/%2e#g" "http://h/p/b/#g" = true
+  /\ ex_join "a://h" "x/y" "a://h/x/y" = true
+  /\ ex_join "a://h/p" "//h2" "a://h2" = true
+  /\ ex_join "a:/p/q" "../../..//x" "a:/.//x" = true
+  /\ ex_join "a:/.//p/q" "r" "a:/.//p/r" = true
+  /\ ex_join "a:/.//p/q" "/r" "a:/r" = true
+  /\ ex_join "a:/.//p/q" "../../r" "a:/r" = true.
+Proof. vm_compute. repeat split. Qed.
